@@ -29,6 +29,8 @@ pub trait Tr2 {}
 pub struct X;
 impl Tr for X {}
 impl Tr2 for X {}
+impl Tr for u8 {}
+impl Tr2 for u8 {}
 
 /// the probe field type: value 3 is NaN-like
 pub struct P<TT: ?Sized>(pub u8, pub PhantomData<TT>);
@@ -169,8 +171,8 @@ def probe_supported(it, zeroize):
     INT_REPRS = ('u8', 'u16', 'u32', 'u64', 'u128', 'usize', 'i8', 'i16', 'i32', 'i64', 'i128', 'isize')
     if any(r not in INT_REPRS for r in ints):
         return False            # rustc rejects the representation itself (E0517 / E0552), whatever the macro does with it
-    if len(set(ints)) > 1:
-        return False            # rustc: conflicting representation hints
+    if len(ints) > 1:
+        return False            # rustc: conflicting representation hints (E0566, also for the same hint given twice)
     if k[0] == 'Enum' and not ints and any(v['disc'] is not None for v in k[1]) and any(v['shape'] != 'Unit' for v in k[1]):
         return False            # rustc E0732: explicit discriminants on non-unit variants need an integer repr
     if k[0] == 'Enum' and 'C' in reprs and ints and not any(v['fields'] for v in k[1]):
